@@ -1006,11 +1006,14 @@ impl<'l> CelCompiler<'l> {
                         // Arguments are evaluated backwards so they get popped off the stack in order
                         for (a, ast) in args.into_iter().rev() {
                             args_ast.push(ast);
+                            // the argument becomes a code block: what it reads is still read
+                            let arg_details = a.details().clone();
                             args_node =
                                 args_node.append_result(CompiledProg::with_code_points(vec![
                                     ByteCode::Push(a.into_unresolved_bytecode().resolve().into())
                                         .into(),
-                                ]))
+                                ]));
+                            args_node.details.union_from(arg_details);
                         }
 
                         member_prime_node = args_node
@@ -1309,6 +1312,7 @@ impl<'l> CelCompiler<'l> {
                 loc,
             }) => {
                 let mut bytecode = Vec::<PreResolvedCodePoint>::new();
+                let mut details = crate::program::ProgramDetails::new();
 
                 for segment in segments.iter() {
                     match segment {
@@ -1320,6 +1324,7 @@ impl<'l> CelCompiler<'l> {
                             let mut comp = CelCompiler::with_tokenizer(&mut tok);
 
                             let (e, _) = comp.parse_expression()?;
+                            details.union_from(e.details().clone());
 
                             bytecode.push(
                                 ByteCode::Push(CelValue::ByteCode(
@@ -1337,7 +1342,10 @@ impl<'l> CelCompiler<'l> {
                 bytecode.push(ByteCode::FmtString(segments.len() as u32).into());
 
                 Ok((
-                    CompiledProg::with_code_points(bytecode),
+                    CompiledProg::new(
+                        NodeValue::Bytecode(bytecode.into_iter().collect()),
+                        details,
+                    ),
                     AstNode::new(
                         Primary::Literal(LiteralsAndKeywords::FStringList(segments.clone())),
                         loc,
@@ -1450,17 +1458,19 @@ impl<'l> CelCompiler<'l> {
     fn check_for_const(&self, member_prime_node: CompiledProg) -> CompiledProg {
         let mut i = Interpreter::empty();
         i.add_bindings(&self.bindings);
+        let details = member_prime_node.details().clone();
         let bc = member_prime_node.into_unresolved_bytecode().resolve();
         if Self::reads_clock(bc.as_slice()) {
-            return CompiledProg::with_bytecode(bc);
+            return CompiledProg::new(NodeValue::Bytecode(bc.into()), details);
         }
         let r = i.run_raw(&bc, true);
 
         // A value computed while some name was unresolved (a variable, or a function or macro
         // only known at run time) says nothing about the run-time value: keep the code.
+        // either way the node keeps the parameters its callee, receiver and arguments mention
         match r {
-            Ok(v) if !i.saw_unresolved() => CompiledProg::with_const(v),
-            _ => CompiledProg::with_bytecode(bc),
+            Ok(v) if !i.saw_unresolved() => CompiledProg::new(NodeValue::ConstExpr(v), details),
+            _ => CompiledProg::new(NodeValue::Bytecode(bc.into()), details),
         }
     }
 }
